@@ -36,10 +36,7 @@ CERTDIR = os.path.join(C.BUILD, "certs")
 
 
 def kprimes():
-    src = open(C.REPO + "/src/systematic_constants.rs").read()
-    body = src[src.index("SYSTEMATIC_INDICES_AND_PARAMETERS") :]
-    body = body[body.index("= [") : body.index("];")]
-    return [int(m.group(1)) for m in re.finditer(r"\((\d+),\s*\d+,\s*\d+,\s*\d+,\s*\d+\)", body)]
+    return [r[0] for r in C.repo_table2()[0]]
 
 
 def instantiate(k, nums, tag):
@@ -102,13 +99,9 @@ def cases(rng, tier):
     # block sizes whose systematic index J coincides with another row's: built one after the other in ONE process
     # through the plan cache (variant 0) and with an explicit plan (variant 1): a cache keyed by anything coarser
     # than the symbol count hands out the wrong plan
-    import re as _re
-    src = open(C.REPO + "/src/systematic_constants.rs").read()
-    body = src[src.index("SYSTEMATIC_INDICES_AND_PARAMETERS") :]
-    body = body[body.index("= [") : body.index("];")]
     byj = {}
-    for m in _re.finditer(r"\((\d+),\s*(\d+),\s*\d+,\s*\d+,\s*\d+\)", body):
-        byj.setdefault(int(m.group(2)), []).append(int(m.group(1)))
+    for r in C.repo_table2()[0]:
+        byj.setdefault(r[1], []).append(r[0])
     pairs = sorted((v for v in byj.values() if len(v) >= 2 and v[1] <= (420 if tier == "quick" else 1100)), key=lambda v: v[1])
     for v in pairs[: 3 if tier == "quick" else 12]:
         for k in v[:2]:
